@@ -251,7 +251,18 @@ func (in *Interp) ghostEq(a, b *Ghost) *Term {
 		if sa == sb {
 			return te
 		}
-		// same value, different spellings: byte equality unknown but consistent
+		// same value, different spellings: Go's encoder output equals the canonical form exactly when every
+		// object's members are already in canonical order (no numbers, no characters Go escapes differently)
+		isStd := func(x string) bool { return x == "go" || x == "canon" || x == "compact" }
+		if isStd(sa) && isStd(sb) {
+			ta := a.Args[0].(*JNode)
+			if ord, known := membersInCanonicalOrder(ta); known && !hasNumber(ta) {
+				if !ord {
+					return tFalse
+				}
+				return te
+			}
+		}
 		return And(te, in.freshBool("spell:"+a.Key()+"|"+b.Key()))
 	}
 	if a.Ctor != b.Ctor {
@@ -437,4 +448,35 @@ func sliceOfStr(s *Str) *Slice {
 		data[i] = b
 	}
 	return &Slice{Data: data}
+}
+
+// membersInCanonicalOrder: every object of the tree lists its members in RFC 8785 order (known=false when a
+// member name is not concrete).
+func membersInCanonicalOrder(n *JNode) (ordered bool, known bool) {
+	switch n.Kind {
+	case jArr:
+		for _, e := range n.Elems {
+			if o, k := membersInCanonicalOrder(e); !k || !o {
+				return o, k
+			}
+		}
+	case jObj:
+		prev := ""
+		for i, k := range n.Keys {
+			c, ok := k.Concrete()
+			if !ok {
+				return false, false
+			}
+			if i > 0 && !utf16Less(prev, c) {
+				return false, true
+			}
+			prev = c
+		}
+		for _, v := range n.Vals {
+			if o, k := membersInCanonicalOrder(v); !k || !o {
+				return o, k
+			}
+		}
+	}
+	return true, true
 }
